@@ -203,6 +203,10 @@ CATALOGUE = [
     ("woff2-orig-offsets-unpadded", "ttLib/woff2.py", "            offset += (entry.origLength + 3) & ~3\n        return offset", "            offset += entry.origLength\n        return offset", "C04", "WOFF2OrigOffsets", "alarm"),
     ("woff2-master-checksum-compressed-offsets", "ttLib/woff2.py", "            sfntEntry.offset = entry.origOffset", "            sfntEntry.offset = entry.offset", "C04", "WOFF2MasterChecksum", "alarm"),
     ("woff2-total-size-pads-before-compressed", "ttLib/woff2.py", "        offset += self.totalCompressedSize\n        offset = (offset + 3) & ~3", "        offset = (offset + 3) & ~3\n        offset += self.totalCompressedSize", "C04", "WOFF2TotalSize", "alarm"),
+    ("woff2-reader-pads-table-offsets", "ttLib/woff2.py", "            entry.offset = offset\n            offset += entry.length\n\n        totalUncompressedSize = offset", "            entry.offset = offset\n            offset += (entry.length + 3) & ~3\n\n        totalUncompressedSize = offset", "C04", "WOFF2ReaderOffsets", "alarm"),
+    ("woff2-reader-accepts-longer-stream", "ttLib/woff2.py", "        if len(decompressedData) != totalUncompressedSize:", "        if len(decompressedData) < totalUncompressedSize:", "C04", "WOFF2ReaderOffsets", "alarm"),
+    ("woff2-loca-stays-transformed-after-glyf-gave-up", "ttLib/woff2.py", '                    transformedTables.discard("loca")', "                    pass", "C04", "WOFF2TransformTablesLoop", "alarm"),
+    ("woff2-transformed-flag-set-then-cleared", "ttLib/woff2.py", "                if data is not None:\n                    entry.transformed = True", "                entry.transformed = True", "C04", "WOFF2TransformTablesLoop", "green"),
     ("closure-memo-subset-spelling", "subset/__init__.py", "    if cur_glyphs.issubset(covered):\n        return\n    covered.update(cur_glyphs)\n\n    for st in self.SubTable:", "    if cur_glyphs <= covered:\n        return\n    covered.update(cur_glyphs)\n\n    for st in self.SubTable:", "C07", "LookupClosureMemo", "green"),
 ]
 
